@@ -88,6 +88,9 @@ class CFG:
                     work.append(m)
         return seen
 
+    def out_edges(self, n: int, label: str) -> set:
+        return {(n, m, l) for (m, l) in self.succ[n] if l == label}
+
     def live(self) -> set[int]:
         return self.reach([self.entry.id])
 
@@ -114,7 +117,8 @@ class CFG:
                     break
         return out
 
-    def shortest_path(self, start: int, goals: set[int], removed: set[int] = frozenset()) -> list[tuple[int, str]] | None:
+    def shortest_path(self, start: int, goals: set[int], removed: set[int] = frozenset(),
+                      removed_edges: set = frozenset()) -> list[tuple[int, str]] | None:
         from collections import deque
 
         prev: dict[int, tuple[int, str] | None] = {start: None}
@@ -130,20 +134,21 @@ class CFG:
                     cur = p[0] if p else None
                 return list(reversed(path))
             for (m, lab) in self.succ[n]:
-                if m in removed or m in prev:
+                if m in removed or m in prev or (n, m, lab) in removed_edges:
                     continue
                 prev[m] = (n, lab)
                 dq.append(m)
         return None
 
-    def must_pass(self, starts: Iterable[int], exits: Iterable[int], through: set[int]) -> list[tuple[int, str]] | None:
-        """None if every path from starts to exits passes a node in `through`;
-        otherwise the shortest offending path."""
+    def must_pass(self, starts: Iterable[int], exits: Iterable[int], through: set[int],
+                  through_edges: set = frozenset()) -> list[tuple[int, str]] | None:
+        """None if every path from starts to exits passes a node in `through`
+        (or an edge in `through_edges`); otherwise the shortest offending path."""
         exits = set(exits)
         for s in starts:
             if s in through:
                 continue
-            p = self.shortest_path(s, exits, removed=through)
+            p = self.shortest_path(s, exits, removed=through, removed_edges=through_edges)
             if p is not None:
                 return p
         return None
